@@ -52,7 +52,7 @@ Print Assumptions C15_errors.
    dynamically; 2 is redirected to 4 which is missing) meets the hypotheses
    and the walk yields 1, 2 (as redirect), 4 (as error) but not 3. *)
 Definition ex_dep (t : N) (target : spec) (dyn : bool) : dep :=
-  {| d_text := t; d_filelike := false; d_code := ROk target 0; d_type := RNone; d_dyn := dyn; d_deno_types := false |}.
+  {| d_text := t; d_filelike := false; d_code := ROk target 0; d_type := RNone; d_dyn := dyn; d_deno_types := false; d_attr := 0 |}.
 Definition ex_graph : graph :=
   {| g_kind := KAll; g_roots := [1];
      g_slots := [(1, SMod {| m_kind := MkJs; m_spec := 1; m_media := MTypeScript;
